@@ -71,6 +71,54 @@ class Item:
         self.closes = 0     # number of statements that end at this token
         self._short_closes = 0
 
+_SOURCE_WORDS = None
+
+
+def source_words():
+    """Identifier-like words that occur in the bytes constants of the CURRENT picotool source (docstrings excluded): the
+    words the code itself compares things with (`include`, `require`, `lua`, `gfx`, `c`, `_update60`, `pico8`, ...). A few of them
+    are used as ordinary identifiers in every generated program: an identifier is an identifier whatever it spells, and a word that a
+    change teaches the code to look for enters this dictionary with the change."""
+    global _SOURCE_WORDS
+    if _SOURCE_WORDS is not None:
+        return _SOURCE_WORDS
+    import ast
+    import os
+    import re
+    repo = os.environ.get('PICOTOOL_REPO', '/repo')
+    words = set()
+    for root, _, files in os.walk(os.path.join(repo, 'pico8')):
+        for fn in files:
+            if not fn.endswith('.py') or 'demos' in root:
+                continue
+            try:
+                tree = ast.parse(open(os.path.join(root, fn), encoding='utf-8').read())
+            except Exception:
+                continue
+            docs = set()
+            for node in ast.walk(tree):
+                if isinstance(node, (ast.Module, ast.ClassDef, ast.FunctionDef, ast.AsyncFunctionDef)) and node.body and \
+                        isinstance(node.body[0], ast.Expr) and isinstance(node.body[0].value, ast.Constant):
+                    docs.add(id(node.body[0].value))
+            for node in ast.walk(tree):
+                if isinstance(node, ast.Constant) and id(node) not in docs and isinstance(node.value, bytes):
+                    v = node.value
+                    if len(v) > 80:
+                        continue
+                    for w in re.findall(rb'[A-Za-z_][A-Za-z0-9_]*', v):
+                        if w not in KEYWORDS and len(w) <= 16 and not re.fullmatch(rb'__[a-z]+__', w):
+                            # (a line that reads as a `__section__` header is outside the .p8 format: C03 excludes such sources)
+                            words.add(w)
+    try:
+        import sys
+        sys.path.insert(0, repo)
+        from pico8.lua import lua as _lua
+        words -= set(getattr(_lua, 'PICO8_BUILTINS', ()))       # the API names are in BUILTINS already
+    except Exception:
+        pass
+    _SOURCE_WORDS = sorted(words)
+    return _SOURCE_WORDS
+
 
 class LuaGen:
     def __init__(self, rng, max_depth=3, names=None, allow_nested_short_if=True, glyph_names=True,
@@ -81,6 +129,9 @@ class LuaGen:
                                b'player_x', b'endx', b'dox', b'nilx', b'x2', b'T', b'Zz']
         if glyph_names:
             self.names = self.names + [b'\x80x', b'x\x99', b'\xe3\x81']
+            sw = [w for w in source_words() if w != b'require']
+            if sw and names is None:
+                self.names = self.names + [rng.choice(sw) for _ in range(4)]
         self.allow_nested_short_if = allow_nested_short_if
         self.stmt_budget = stmt_budget
         self.all_escapes = all_escapes
@@ -566,10 +617,63 @@ def layout(rng, items, style='random', final_newline=None, header=None):
 
 
 def gen_program(rng, style=None, **kw):
+    if 'names' not in kw and rng.random() < 0.12:
+        # a program whose identifiers are words the picotool source itself mentions (see source_words)
+        sw = [w for w in source_words() if w != b'require']
+        if sw:
+            kw = dict(kw, names=[rng.choice(sw), rng.choice(sw), b'x'], glyph_names=False)
     g = LuaGen(rng, **kw)
     items = g.program()
     style = style or rng.choice(['random', 'random', 'compact', 'spaced', 'lines'])
     return layout(rng, items, style), items, g.features
+
+
+def word_program(rng, w, style=None):
+    """A fixed program in which the identifier `w` stands in every syntactic position an identifier can have (operand of every unary
+    operator, assignment target, field, method, function name, parameter, loop variable, table key, label, goto target, call with
+    string / table argument), with statement tags, laid out like any generated program."""
+    g = LuaGen(rng, names=[w], glyph_names=False)
+    T, tag = g.T, LuaGen.tag
+
+    def S(kind, *parts):
+        out = []
+        for p in parts:
+            out += p if isinstance(p, list) else [T(p)]
+        return tag(kind, out)
+    A, C = 'StatAssignment', 'StatFunctionCall'
+    items = []
+    items += S(A, b'x', b'=', b'#', w)
+    items += S(A, w, b'=', b'-', w, b'+', b'#', w, b'*', b'~', w)
+    items += S(A, b't', b'[', b'#', w, b'+', b'1', b']', b'=', b'not', w)
+    items += S(A, w, b'.', w, b'=', w, b'.', w, b'..', w)
+    items += S(C, w, b':', w, b'(', w, b',', b'#', w, b')')
+    items += S('StatFunction', b'function', w, b'.', w, b':', w, b'(', w, b')', S('StatReturn', b'return', w), b'end')
+    items += S('StatLocalFunction', b'local', b'function', w, b'(', w, b',', b'...', b')', S('StatReturn', b'return', b'...'), b'end')
+    items += S('StatLocalAssignment', b'local', w, b',', b'x', b'=', w)
+    items += S('StatForStep', b'for', w, b'=', b'1', b',', b'#', w, b'do', S(C, w, b'(', b')'), b'end')
+    items += S('StatForIn', b'for', w, b',', b'x', b'in', w, b'(', w, b')', b'do', b'end')
+    items += S(A, b't', b'=', b'{', w, b'=', w, b',', b'[', w, b']', b'=', w, b';', w, b'}')
+    items += S('StatLabel', b'::' + w + b'::')
+    items += S('StatGoto', b'goto', w)
+    items += S(C, w, b'"s"')
+    items += S(C, w, b'{', w, b'}')
+    items += S(A, b'x', b'=', b'@', w, b'+', b'%', w, b'+', b'$', w)
+    items += S('StatWhile', b'while', w, b'do', S('StatBreak', b'break'), b'end')
+    items += S('StatRepeat', b'repeat', b'until', w)
+    items += S('StatIf', b'if', w, b'then', S(A, w, b'+=', b'1'), b'elseif', b'#', w, b'>', b'0', b'then', b'else', b'end')
+    items += S('StatDo', b'do', S(A, b'x', b'=', w), b'end')
+    items += S('StatReturn', b'return', w)
+    style = style or rng.choice(['random', 'spaced', 'lines', 'compact'])
+    return layout(rng, items, style), items
+
+
+def word_programs(rng, per_word=1):
+    """`word_program` for every word of the source dictionary."""
+    out = []
+    for w in source_words():
+        for k in range(per_word):
+            out.append(word_program(rng, w, style=['spaced', 'random', 'lines', 'compact'][k % 4] if per_word > 1 else None))
+    return out
 
 
 def expected_statements(items):
